@@ -676,7 +676,23 @@ def shaped_backend():
         return STok(("concat", axis, tuple((p.term, p.shape) for p in parts)), shape)
 
     def conj(t):
-        return STok(("conj", t.term), t.shape)
+        term = t.term
+        if isinstance(term, tuple) and term and term[0] == "conj":
+            return STok(term[1], t.shape)  # an involution
+        if isinstance(term, tuple) and term and term[0] == "zeros":
+            return t
+        if isinstance(term, tuple) and term and term[0] == "transpose":
+            # canonical form: conjugation innermost, re-indexing outside
+            inv = [0] * len(term[2])
+            for i, p_ in enumerate(term[2]):
+                inv[p_] = i
+            inner_shape = tuple(t.shape[inv[j]] for j in range(len(inv)))
+            return STok(("transpose", conj(STok(term[1], inner_shape)).term, term[2]), t.shape)
+        if isinstance(term, tuple) and term and term[0] == "reshape" and len(term) == 4:
+            return STok(("reshape", conj(STok(term[1], term[3])).term, term[2], term[3]), t.shape)
+        if isinstance(term, tuple) and term and term[0] == "neg":
+            return -conj(STok(term[1], t.shape))
+        return STok(("conj", term), t.shape)
 
     def einsum(eq, *ops):
         lhs, rhs = eq.split("->")
